@@ -367,8 +367,8 @@ def check_impulse_arith(rng, nr):
     ss = SSD({'a': 2.0, 'b': -3.0}, {'blk': {'D': np.array([1.0, 2.0])}})
     ops = [('+', operator.add), ('-', operator.sub), ('*', operator.mul), ('/', operator.truediv)]
     scalars = {'int': 3, 'float': 2.5, 'bool': True, 'np.float64': np.float64(1.5), 'np.float32': np.float32(0.5), 'np.int64': np.int64(2),
-               'np.int32': np.int32(4)}
-    bad_operands = {'str': 'x', 'None': None, 'list': [1.0, 2.0, 3.0, 4.0], 'dict': {'a': 1.0}, 'complex': 1j, 'ndarray': np.ones(T)}
+               'np.int32': np.int32(4), 'Fraction': __import__('fractions').Fraction(3, 4)}
+    bad_operands = {'str': 'x', 'None': None, 'list': [1.0, 2.0, 3.0, 4.0], 'dict': {'a': 1.0}, 'complex': 1j, 'np.complex128': np.complex128(2j), 'ndarray': np.ones(T)}
     n = 0
     for name, f in ops:
         for oname, o in list(scalars.items()) + [('ImpulseDict', other), ('SteadyStateDict', ss)]:
@@ -388,11 +388,11 @@ def check_impulse_arith(rng, nr):
                 for k in top:
                     ov = o[k] if oname in ('ImpulseDict', 'SteadyStateDict') else o
                     e = f(ov, top[k]) if refl else f(top[k], ov)
-                    if not np.allclose(r[k], e):
+                    if not np.allclose(np.asarray(r[k], dtype=float), np.asarray(e, dtype=float)):
                         return dict(what=f'ImpulseDict {name} {oname} is not elementwise per key', input=inp, signature=dict(op='impulse-arith', operand=oname)), n
                 oi = o.internals['blk']['D'] if oname in ('ImpulseDict', 'SteadyStateDict') else o
                 e = f(oi, internals['blk']['D']) if refl else f(internals['blk']['D'], oi)
-                if not np.allclose(r.internals['blk']['D'], e):
+                if not np.allclose(np.asarray(r.internals['blk']['D'], dtype=float), np.asarray(e, dtype=float)):
                     return dict(what=f'ImpulseDict {name} {oname} does not act on internals', input=inp, signature=dict(op='impulse-arith-internals', operand=oname)), n
         for oname, o in bad_operands.items():
             for refl in (False, True):
@@ -490,7 +490,7 @@ def oracle(ctx, hints, broken):
     return dict(evaluations=n, violations=viol,
                 rule='dense numpy block matrices on (T+8)-windows for compose with random kind mixtures (dense/sparse/identity), apply incl. a supplied '
                      'path named like an output, pack/unpack/getitem/merge/complete/T-mismatch, FactoredJacobianDict with permuted target order '
-                     'vs numpy.linalg.solve, ImpulseDict arithmetic over 9 accepted and 6 refused operand kinds incl. reflected forms, merge/copy/update of impulse and steady-state collections carrying internals (operands untouched, key-wise union)')
+                     'vs numpy.linalg.solve, ImpulseDict arithmetic over 10 accepted (incl. fractions.Fraction) and 7 refused (incl. numpy complex) operand kinds incl. reflected forms, merge/copy/update of impulse and steady-state collections carrying internals (operands untouched, key-wise union)')
 
 
 def replay(rp):
